@@ -97,13 +97,13 @@ func DialClusterContext(ctx context.Context, addrs []string, options ...Option) 
 
 	c := &Client{
 		lock:              new(sync.Mutex),
-		conn:              newConn(stream),
 		dialer:            dialer,
 		supportedVersions: opts.supportedVersions,
 		version:           opts.enforceVersion,
 		middlewares:       opts.middlewares,
 		addr:              addrs[0],
 	}
+	c.conn.Store(newConn(stream))
 
 	// Negotiate protocol version
 	if err := c.negotiateVersion(ctx); err != nil {
